@@ -1,7 +1,7 @@
 import IpamVerif.AllocLemmas
 import IpamVerif.System
 import IpamVerif.Props.C07
-import IpamVerif.Props.C08
+import IpamVerif.NoRewrite
 import IpamVerif.Props.C17
 /-!
 # C02 — every assignment is a well-formed block of one eligible ClusterCIDR
